@@ -115,7 +115,9 @@ def search_histories(chk, r, n):
     forced = [dict(sv=dict(FactScaleVar=False, FNS="FFNS", NfFF=3), alias=False), dict(sv=dict(FactScaleVar=False), alias=True), dict(sv=dict(RenScaleVar=False, FactScaleVar=False), alias=False), dict(sv={}, alias=True),
               dict(sv={}, alias=False, multi_nf=True), dict(sv=dict(RenScaleVar=False), alias=False, multi_nf=True),
               # a cross section listed before structure functions at the same (x, Q2, y), one of its points twice
-              dict(sv={}, alias=False, xs_dup=True), dict(sv=dict(FactScaleVar=False), alias=False, xs_dup=True)]
+              dict(sv={}, alias=False, xs_dup=True), dict(sv=dict(FactScaleVar=False), alias=False, xs_dup=True),
+              # one a_s^2 history (the (2,1,1) / (2,2,0) factorisation sectors only exist there)
+              dict(sv={}, alias=False, nnlo=True)]
     for i_case in range(n + len(forced)):
         tmc = r.choice([0, 0, 1, 3])
         process = r.choice(["NC", "CC", "EM"])
@@ -129,6 +131,8 @@ def search_histories(chk, r, n):
                 kinds, process = ["F2", "FL"], "NC"
             if force.get("xs_dup"):
                 kinds, process = ["FL", "F3"], r.choice(["NC", "CC"])
+            if force.get("nnlo"):
+                kinds, process, pto, fl = ["F2", "FL"], "EM", 2, "light"
         names = [f"{k}_{fl}" for k in kinds]
         grid = cards.default_grid(7, 0.05)
         # the scale-variation switches are legal card entries: every combination
@@ -138,6 +142,8 @@ def search_histories(chk, r, n):
         th = cards.theory(PTO=pto, TMC=tmc, Q0=0.5, **sv_kw)
         kw = dict(prDIS=process, ProjectileDIS="neutrino" if process == "CC" else "electron", interpolation_xgrid=grid, interpolation_polynomial_degree=2)
         pts = [copy.deepcopy(p) for p in r.sample(pool, r.choice([2, 3, 5]))]
+        if force is not None and force.get("nnlo"):
+            pts = [dict(x=0.3, Q2=10.0), dict(x=0.1, Q2=10.0)]
         if force is not None and force.get("multi_nf"):
             # points on both sides of the charm and bottom matching scales, scale variations on
             pts = [dict(x=0.3, Q2=0.7), dict(x=0.1, Q2=10.0), dict(x=0.3, Q2=40.0), dict(x=0.55, Q2=40.0)]
@@ -176,6 +182,8 @@ def search_histories(chk, r, n):
             i = r.randrange(len(pts))
             if force is not None and force.get("multi_nf"):
                 target_name, i = names[0], 2  # F2 at Q2 = 40 (nf = 5), computed after the nf = 3 and nf = 4 points
+            if force is not None and force.get("nnlo"):
+                target_name, i = names[-1], len(pts) - 1  # computed after everything else
             single = realrun.run(th, cards.obs({target_name: [copy.deepcopy(pts[i])]}, **kw))[target_name][0]
         except Exception as e:
             # does every point on its own go through?  then the failure is one of the history
